@@ -213,6 +213,16 @@ def sized_trace(spec, p):
     are where one-byte and two-byte length fields of an encoder would overflow"""
     if isinstance(spec, int):
         return large_trace(spec, p)
+    if spec.startswith("coef"):
+        # every coefficient k, -k, p-k, p+k for k = 1..N and around the powers of two and ten above N, on a wire and on the constant:
+        # an encoder that keeps a table (or a short form) of small coefficients has its boundary at some round number
+        n = int(spec[4:])
+        ks = list(range(1, n + 1)) + sorted({b + d for e in range(1, 80) for b in (1 << e, 10 ** (e // 3)) for d in (-1, 0, 1) if b + d > n})
+        tr = [["pub", 5], ["priv", 3], ["priv", -4]]
+        for k in ks:
+            tr.append(["con", ["add", ["mul", ["var", 0], k], ["mul", ["one"], k]], ["mul", ["var", 1], -k],
+                       ["add", ["mul", ["var", 2], p - k], ["mul", ["one"], p + k]]])
+        return tr
     n = int(spec[3:])
     tr = []
     nv = 0
@@ -231,8 +241,11 @@ def sized_trace(spec, p):
 # hypothesis strategies for traces
 
 def trace_strategy(st, p, max_vars=6, max_cons=5):
+    # (round numbers and table boundaries - 1000, 4096, 5000, 65536 ... - are where lookup tables of pre-encoded coefficients end)
+    magic = [100, 127, 128, 255, 256, 257, 999, 1000, 1001, 1023, 1024, 4095, 4096, 4999, 5000, 5001, 9999, 10000, 32767, 32768, 65535, 65536, 65537, 10 ** 6]
     scal = st.one_of(st.integers(-3, 3), st.sampled_from([0, 1, -1, p, p - 1, p + 1, -p, 2 * p + 3, 1 << 255, 1 << 256, (1 << 300) + 7,
                                                            (1 << 61) - 1, 1 << 61, 1 << 64, (1 << 64) + 1]),
+                     st.sampled_from(magic), st.sampled_from(magic).map(lambda v: -v),
                      st.integers(0, p - 1))
     vals = st.one_of(st.integers(-5, 5), st.integers(0, p - 1),
                      st.sampled_from([0, 1, -1, p, p - 1, p + 1, -p - 2, 1 << 256, (1 << 256) + 5, (1 << 300) + 9, -(1 << 260)]))
